@@ -599,7 +599,7 @@ func TestC13(t *testing.T) {
 	rec.Flush()
 	total := 3000 / cfg.NShards
 	if cfg.Thorough() {
-		total = 40000 / cfg.NShards
+		total = 200000 / cfg.NShards
 	}
 	// split sequences: every sequence of length <= 3 over every placement of one middleware's cuts (quick: a
 	// rotating share), then random ones with 1-2 middlewares
